@@ -13,6 +13,7 @@ package main
 import (
 	"encoding/json"
 	"fmt"
+	"hash/fnv"
 	"math/rand"
 	"os"
 	"path/filepath"
@@ -175,7 +176,7 @@ func checkC15(tier, replay string) int {
 		"{before echo with own prompt, inside echo at 3 offsets, after echo without prompt, after echo with own prompt, after the regular prompt} x kind {2:00, 1:00, ABORTED (late)} x "+
 		"write chunking {one write, line by line with 7 ms gaps, prompt delayed}. Oracles: every change inside the armed window, write memory only after cancel and without rejected change, "+
 		"no reload pending after success, same exit status and same change-command sequence as the banner-free run, no spurious ERROR, re-arm dialogue right after a 1:00 banner. "+
-		"Non-trivial = banner was actually shown inside the session (reload pending or ABORTED kind). quick: seeded 1-in-8 sample; thorough: all.", nscripts)
+		"Non-trivial = banner was actually shown inside the session (reload pending or ABORTED kind). quick: seeded 1-in-4 hash sample of the product; thorough: all.", nscripts)
 	rep.Assumptions = []string{
 		"only banner forms the device is known to produce (those of ios_simul.t) are generated; BEL precedes the banner text",
 		"the simulated router never reloads: the two minutes do not elapse",
@@ -267,11 +268,14 @@ func checkC15(tier, replay string) int {
 								continue
 							}
 							n++
-							if tier == "quick" && (n+int(env.Seed))%8 != 0 {
+							c := &c15Case{Script: si, StepClass: stepClass, StepRaw: e.Raw,
+								Banner: &sim.Banner{Ord: e.Ord, Form: f, Kind: kind, Chunk: chunk}}
+							// Hash sampling: a stride would alias with the
+							// 32 combinations per step.
+							if tier == "quick" && sampleHash(c.id(), env.Seed)%4 != 0 {
 								continue
 							}
-							cases = append(cases, &c15Case{Script: si, StepClass: stepClass, StepRaw: e.Raw,
-								Banner: &sim.Banner{Ord: e.Ord, Form: f, Kind: kind, Chunk: chunk}})
+							cases = append(cases, c)
 						}
 					}
 				}
@@ -392,4 +396,10 @@ func checkC15(tier, replay string) int {
 		return rep.FinishReplay()
 	}
 	return rep.Finish()
+}
+
+func sampleHash(id string, seed int64) uint32 {
+	h := fnv.New32a()
+	fmt.Fprintf(h, "%d/%s", seed, id)
+	return h.Sum32()
 }
